@@ -16,13 +16,13 @@ import (
 )
 
 type clientOp struct {
-	client   int
-	method   string
-	class    string
-	status   int
-	call     int64
-	ret      int64
-	err      string
+	client int
+	method string
+	class  string
+	status int
+	call   int64
+	ret    int64
+	err    string
 }
 
 type counterIn struct {
